@@ -8,6 +8,9 @@ dyn_args; tree_const / tree_const_unwrap are inverse leaf maps with is_leaf on C
 Not decided: round trips through jit / vmap (JAX / penzai behaviour; declined).
 """
 import ast
+import itertools
+
+from ..program import AnalysisError
 
 from ..rules import Arms, is_call, is_mcall, mentions
 from ..terms import C, Evaluator, G, P, is_t, mk_proj, show, subterms
@@ -23,23 +26,13 @@ def run(chk, prog):
     D = prog.cls("Diff", INC)
     W = lambda c, m: f"{c.module.rel}:{c.methods[m].lineno}"
     ev = Evaluator(prog)
+    from ._diff import constant_tagging, leaf_projection
     for meth in ("tree_primal", "tree_tangent"):
-        r = ev.eval_fn(D.methods[meth], D.module, D)
-        t = r.ret
-        inner = prog.nested(D.methods[meth], "_inner")
-        ok = is_call(t, "tree_map") or is_t(t, "treemap")
-        # the evaluator summarises tree_map; is_leaf must be Diff.is_diff so that a Diff is treated as ONE leaf
-        src = ast.unparse(D.methods[meth])
-        okleaf = "is_leaf=Diff.is_diff" in src.replace(" ", "").replace("is_leaf=Diff.is_diff", "is_leaf=Diff.is_diff")
-        kws = [k for n in ast.walk(D.methods[meth]) if isinstance(n, ast.Call) and ast.unparse(n.func).endswith("tree_map") for k in n.keywords if k.arg == "is_leaf"]
-        okleaf = len(kws) == 1 and ast.unparse(kws[0].value) == "Diff.is_diff"
-        chk.require(ok and okleaf, "DIFF-STRUCT", f"Diff.{meth}/is_leaf", "maps over the tree treating each Diff as one leaf", derived=f"is_leaf={ast.unparse(kws[0].value) if kws else None}", expected="jtu.tree_map(_inner, v, is_leaf=Diff.is_diff)", where=W(D, meth))
+        ok, _L, _body, okleaf, txt = leaf_projection(prog, meth)
+        chk.require(ok and okleaf, "DIFF-STRUCT", f"Diff.{meth}/is_leaf", "maps over the tree treating each Diff as one leaf", derived=f"is_leaf=Diff.is_diff: {okleaf}; {txt}", expected="a leafwise map of v with is_leaf=Diff.is_diff", where=W(D, meth))
     for meth, tang in (("no_change", "NoChange"), ("unknown_change", "UnknownChange")):
-        r = ev.eval_fn(D.methods[meth], D.module, D)
-        t = r.ret
-        okd = is_call(t, "tree_diff") and len(t[2]) == 2 and t[2][0] == ("call", ("attr", DIFFG, "tree_primal"), (P("tree"),), ()) and is_t(t[2][1], "treemap") and t[2][1][2] == (t[2][0],) \
-            and is_t(t[2][1][1], "global") and t[2][1][1][1].endswith("." + tang)
-        chk.require(okd, "DIFF-STRUCT", f"Diff.{meth}", f"primal stripped first (idempotent on tagged trees), every leaf tagged {tang}", derived=show(t)[:200], expected=f"tree_diff(tree_primal(tree), tree_map(lambda _: {tang}, primal))", where=W(D, meth))
+        okd, txt = constant_tagging(prog, meth, tang)
+        chk.require(okd, "DIFF-STRUCT", f"Diff.{meth}", f"primal stripped first (idempotent on tagged trees), every leaf tagged {tang}", derived=txt, expected=f"tree_diff(tree_primal(tree), tree_map(lambda _: {tang}, primal))", where=W(D, meth))
     r = ev.eval_fn(D.methods["tree_diff"], D.module, D)
     t = r.ret
     okt = is_t(t, "treemap") and t[2] == (P("tree"), P("tangent_tree")) and t[1] == ("ctor", "Diff", (("leaf", P("tree")), ("leaf", P("tangent_tree"))), ())
@@ -82,37 +75,55 @@ def run(chk, prog):
         rr = ev.apply(r.ret, [P("$fn")], module=Pc.module, cls=Pc)
         okp = rr == ("ctor", "Closure", (P("args"), P("$fn")), ())
     chk.require(okp, "PYTREE-FIELDS", "Pytree.partial", "Closure(args, fn)", derived=show(r.ret), expected="lambda fn: Closure(args, fn)", where=W(Pc, "partial"))
-    rc = Evaluator(prog).eval_fn(Pc.methods["const"], Pc.module, Pc)
-    got = Arms()
-    for conds, ret in rc.returns:
-        got["const" if any(is_t(t, "isinst") and t[2] == "Const" and p for t, p in conds) else "other"] = ret
-    chk.require(got.get("const") == P("v") and got.get("other") == ("ctor", "Const", (P("v"),), ()), "PYTREE-FIELDS", "Pytree.const", "the WHOLE value wrapped in one Const (compound constants are not mapped leafwise)",
-                derived={k: show(v) for k, v in got.items()}.__str__(), expected="v if isinstance(v, Const) else Const(v)", where=W(Pc, "const"))
-    for meth, spec in (("tree_const", "wrap"), ("tree_const_unwrap", "unwrap")):
-        fn = Pc.methods[meth]
-        inner = prog.nested(fn, "_inner")
-        ri = Evaluator(prog).eval_fn(inner, Pc.module, Pc)
-        got = Arms()
-        for conds, ret in ri.returns:
-            pos = [t for t, p in conds if p]
-            if any(is_t(t, "isinst") and t[2] == "Const" for t in pos):
-                got["const"] = ret
-            elif any(is_call(t, "static_check_is_concrete") for t in pos):
-                got["concrete"] = ret
+    # Const helpers, decided by finite evaluation of the evaluated methods over (is a Const?, is concrete?) - whatever the spelling (nested function,
+    # lambda, a shared `_is_const` helper, Const.unwrap used statically, guard clauses)
+    from ..rules import Undecided, pick
+    Cn = prog.cls("Const", PT) if "Const" in prog.class_index else None
+
+    def const_cases(body, L):
+        out = {}
+        for is_const, concrete in itertools.product((True, False), repeat=2):
+            def atom(c, is_const=is_const, concrete=concrete):
+                if is_t(c, "isinst") and c[1] == L and c[2] == "Const":
+                    return is_const
+                if is_call(c, "static_check_is_concrete") and c[2] == (L,):
+                    return concrete
+                raise Undecided(show(c))
+            leaf = pick(body, atom)
+            if is_call(leaf, "unwrap") and leaf[2] == (L,) and Cn is not None and "unwrap" in Cn.methods:
+                # Const.unwrap(leaf) used statically: its own body decides
+                ru = Evaluator(prog).eval_fn(Cn.methods["unwrap"], Cn.module, Cn, bind={Cn.methods["unwrap"].args.args[0].arg: L})
+                leaf = pick(ru.ret, atom)
+            out[(is_const, concrete)] = leaf
+        return out
+    try:
+        rc = Evaluator(prog).eval_fn(Pc.methods["const"], Pc.module, Pc)
+        cc = const_cases(rc.ret, P("v"))
+        okc_ = all(cc[(True, x)] == P("v") and cc[(False, x)] == ("ctor", "Const", (P("v"),), ()) for x in (True, False))
+        chk.require(okc_, "PYTREE-FIELDS", "Pytree.const", "the WHOLE value wrapped in one Const (compound constants are not mapped leafwise)",
+                    derived={str(k): show(v) for k, v in cc.items()}.__str__()[:300], expected="v if isinstance(v, Const) else Const(v)", where=W(Pc, "const"))
+        for meth, spec in (("tree_const", "wrap"), ("tree_const_unwrap", "unwrap")):
+            fn = Pc.methods[meth]
+            rt = Evaluator(prog).eval_fn(fn, Pc.module, Pc)
+            t = rt.ret
+            vparam = P(fn.args.args[0].arg)
+            ok = is_t(t, "treemap") and t[2] == (vparam,)
+            cases = const_cases(t[1], ("leaf", vparam)) if ok else {}
+            Lf = ("leaf", vparam)
+            if spec == "wrap":
+                ok = ok and all(cases[(True, x)] == Lf for x in (True, False)) and cases[(False, True)] == ("ctor", "Const", (Lf,), ()) and cases[(False, False)] == Lf
+                exp = "Const -> itself; concrete -> Const(v); traced -> v"
             else:
-                got["other"] = ret
-        V = P("v")
-        if spec == "wrap":
-            ok = got.get("const") == V and got.get("concrete") == ("ctor", "Const", (V,), ()) and got.get("other") == V
-            exp = "Const -> itself; concrete -> Const(v); traced -> v"
-        else:
-            ok = got.get("const") == ("attr", V, "val") and got.get("other") == V
-            exp = "Const -> v.val; else v"
-        kws = [k for n in ast.walk(fn) if isinstance(n, ast.Call) and ast.unparse(n.func).endswith("tree_map") for k in n.keywords if k.arg == "is_leaf"]
-        def _only_const(lam):
+                ok = ok and all(cases[(True, x)] == ("attr", Lf, "val") and cases[(False, x)] == Lf for x in (True, False))
+                exp = "Const -> v.val; else v"
             # is_leaf must stop at Const nodes ONLY: stopping at containers (tuple, list, dict) would wrap / pass a whole container, traced members included, as one leaf
-            b = lam.body if isinstance(lam, ast.Lambda) else None
-            return isinstance(b, ast.Call) and ast.unparse(b.func) == "isinstance" and len(b.args) == 2 and isinstance(b.args[1], ast.Name) and b.args[1].id == "Const"
-        okl = len(kws) == 1 and _only_const(kws[0].value)
-        chk.require(ok and okl, "PYTREE-FIELDS", f"Pytree.{meth}", exp, derived={k: show(v) for k, v in got.items()}.__str__(), expected=exp + " (is_leaf on Const)", where=W(Pc, meth))
+            kws = [k for n in ast.walk(fn) if isinstance(n, ast.Call) and ast.unparse(n.func).endswith("tree_map") for k in n.keywords if k.arg == "is_leaf"]
+            okl = False
+            if len(kws) == 1:
+                lv = Evaluator(prog).eval_fn(ast.Lambda(args=ast.arguments(posonlyargs=[], args=[ast.arg(arg="x__")], kwonlyargs=[], kw_defaults=[], defaults=[]),
+                                                        body=ast.Call(func=kws[0].value, args=[ast.Name(id="x__", ctx=ast.Load())], keywords=[])), Pc.module, Pc)
+                okl = lv.ret == ("isinst", P("x__"), "Const")
+            chk.require(ok and okl, "PYTREE-FIELDS", f"Pytree.{meth}", exp, derived={str(k): show(v) for k, v in cases.items()}.__str__()[:300], expected=exp + " (is_leaf on Const)", where=W(Pc, meth))
+    except Undecided as e_:
+        raise AnalysisError(f"Pytree const helpers: unrecognised test {e_}")
     chk.explanation = "sibling agreement of the Diff tree helpers and the static/dynamic field metadata of the Pytree utilities"
